@@ -319,17 +319,371 @@ fn gen_types(n: usize, max_depth: usize, out: &str) -> Value {
 // C20: values
 // =====================================================================================
 
-fn vals(_dir: &str) -> Value {
-    json!({"error": "not implemented"})
+/// Build a value from MC_PrintVal's wire: ints as signed decimal text, floats as the bit pattern
+/// of the magnitude plus a sign flag, strings as scalar values; arrays through `Array::from`
+/// (the hidden element type is what a literal has: the join of the elements' tags).
+fn build_val(w: &Value) -> Variable {
+    match k(w) {
+        "bool" => Variable::Bool(w["bv"].as_i64() == Some(1) || w["b"].as_bool() == Some(true)),
+        "int" => Variable::Int(w["d"].as_str().expect("int without digits").parse::<i64>().expect("int leaf outside i64")),
+        "float" => {
+            let mag = f64::from_bits(w["bits"].as_str().unwrap().parse::<u64>().unwrap());
+            Variable::Float(if w["neg"].as_i64() == Some(1) { -mag } else { mag })
+        }
+        "string" => Variable::String(string_from_wire(w).into()),
+        "void" => Variable::Void,
+        "array" => {
+            let es: Arc<[Variable]> = w["es"].as_array().unwrap().iter().map(build_val).collect();
+            Variable::from(Array::from(es))
+        }
+        "tuple" => Variable::Tuple(w["es"].as_array().unwrap().iter().map(build_val).collect()),
+        other => panic!("unknown value kind {other}"),
+    }
 }
 
-fn lits(_dir: &str) -> Value {
-    json!({"error": "not implemented"})
+/// Equality as the property means it: same shape, ints and strings equal, floats bit for bit
+/// (`==` would call -0.0 and 0.0 equal).
+fn strict_eq(a: &Variable, b: &Variable) -> bool {
+    match (a, b) {
+        (Variable::Bool(x), Variable::Bool(y)) => x == y,
+        (Variable::Int(x), Variable::Int(y)) => x == y,
+        (Variable::Float(x), Variable::Float(y)) => x.to_bits() == y.to_bits(),
+        (Variable::String(x), Variable::String(y)) => x == y,
+        (Variable::Void, Variable::Void) => true,
+        (Variable::Array(x), Variable::Array(y)) => x.len() == y.len() && x.iter().zip(y.iter()).all(|(p, q)| strict_eq(p, q)),
+        (Variable::Tuple(x), Variable::Tuple(y)) => x.len() == y.len() && x.iter().zip(y.iter()).all(|(p, q)| strict_eq(p, q)),
+        _ => false,
+    }
 }
 
-fn gen_vals(_n: usize, _max_depth: usize, _out: &str) -> Value {
-    json!({"error": "not implemented"})
+/// Tokens of a value text: (kind, content) with kinds p (punctuation), int, float, str, bool;
+/// anything unexpected is kind "?".  A number is an int when it consists of digits only, a float
+/// when it has a fraction or an exponent ("floats keep a decimal point").
+pub fn tokenize_val(text: &str) -> Vec<(String, String)> {
+    let cs: Vec<char> = text.chars().collect();
+    let mut out = vec![];
+    let mut i = 0;
+    while i < cs.len() {
+        let c = cs[i];
+        if c == ' ' || c == '\t' || c == '\n' || c == '\r' {
+            i += 1;
+        } else if "[](),-".contains(c) {
+            out.push(("p".to_string(), c.to_string()));
+            i += 1;
+        } else if c.is_ascii_digit() {
+            let mut j = i;
+            while j < cs.len() && cs[j].is_ascii_digit() {
+                j += 1;
+            }
+            let mut float = false;
+            if j + 1 < cs.len() && cs[j] == '.' && cs[j + 1].is_ascii_digit() {
+                float = true;
+                j += 1;
+                while j < cs.len() && cs[j].is_ascii_digit() {
+                    j += 1;
+                }
+            }
+            if j < cs.len() && (cs[j] == 'e' || cs[j] == 'E') {
+                let mut l = j + 1;
+                if l < cs.len() && (cs[l] == '+' || cs[l] == '-') {
+                    l += 1;
+                }
+                if l < cs.len() && cs[l].is_ascii_digit() {
+                    float = true;
+                    while l < cs.len() && cs[l].is_ascii_digit() {
+                        l += 1;
+                    }
+                    j = l;
+                }
+            }
+            out.push((if float { "float" } else { "int" }.to_string(), cs[i..j].iter().collect()));
+            i = j;
+        } else if c == '"' {
+            let mut j = i + 1;
+            let mut closed = false;
+            while j < cs.len() {
+                if cs[j] == '\\' {
+                    j += 2;
+                } else if cs[j] == '"' {
+                    closed = true;
+                    j += 1;
+                    break;
+                } else {
+                    j += 1;
+                }
+            }
+            let j = j.min(cs.len());
+            out.push((if closed { "str" } else { "?" }.to_string(), cs[i..j].iter().collect()));
+            i = j;
+        } else if c.is_ascii_alphabetic() {
+            let mut j = i;
+            while j < cs.len() && cs[j].is_ascii_alphanumeric() {
+                j += 1;
+            }
+            let word: String = cs[i..j].iter().collect();
+            out.push((if word == "true" || word == "false" { "bool" } else { "?" }.to_string(), word));
+            i = j;
+        } else {
+            out.push(("?".to_string(), c.to_string()));
+            i += 1;
+        }
+    }
+    out
 }
 
-#[allow(unused)]
-fn _unused(_: &Error) {}
+/// Does the implementation's token sequence have the structure the specification prescribes?
+/// punctuation, int digits and bools are compared exactly, float and string atoms by kind.
+fn same_structure(spec: &[Value], got: &[(String, String)]) -> bool {
+    spec.len() == got.len()
+        && spec.iter().zip(got).all(|(s, (kind, content))| {
+            let a = s["a"].as_str().unwrap_or("");
+            a == kind && (a == "float" || a == "str" || s["c"].as_str() == Some(content.as_str()))
+        })
+}
+
+/// What one route did with a text, in the specification's vocabulary.
+fn observe(res: Result<Result<Variable, Error>, String>, want: &Variable) -> (String, Value) {
+    match res {
+        Ok(Ok(got)) => {
+            if strict_eq(&got, want) && got.as_type() == want.as_type() {
+                ("ok".into(), json!(null))
+            } else {
+                ("differs".into(), json!({"got": format!("{got:?}"), "got_tag": got.as_type().to_string(),
+                    "want_tag": want.as_type().to_string()}))
+            }
+        }
+        Ok(Err(Error::IntegerOverflow(what))) => ("overflow".into(), json!({"error": what.to_string()})),
+        Ok(Err(e)) => ("error".into(), json!({"error": e.to_string()})),
+        Err(p) => ("panic".into(), json!({"panic": p})),
+    }
+}
+
+fn run_program(interp: &Interpreter, text: &str) -> Result<Result<Variable, Error>, String> {
+    catch(|| Code::parse(interp, text).and_then(|code| code.exec().map_err(Error::from)))
+}
+
+fn vals(dir: &str) -> Value {
+    let rows = read_ndjson(&format!("{dir}/print_vals.ndjson"));
+    let interp = Interpreter::without_stdlib();
+    let mut mm = Mismatches::new(300);
+    let (mut n, mut n_prog_ok, mut n_prog_overflow, mut max_depth) = (0u64, 0u64, 0u64, 0usize);
+    let mut samples = vec![];
+    for (ri, row) in rows.iter().enumerate() {
+        let v = build_val(&row["v"]);
+        n += 1;
+        // the tag of the value as built is the specification's (Array::from joins the element tags)
+        let want_tag = canon_type(&row["tag"]);
+        if type_to_wire(&v.as_type()) != want_tag {
+            mm.push("tag", json!({"value": row["v"], "expected": want_tag, "got": type_to_wire(&v.as_type())}));
+        }
+        let text = match catch(|| format!("{v:?}")) {
+            Ok(t) => t,
+            Err(p) => {
+                mm.push("print", json!({"value": row["v"], "panic": p}));
+                continue;
+            }
+        };
+        max_depth = max_depth.max(text.chars().take_while(|c| *c == '[' || *c == '(').count());
+        let toks = tokenize_val(&text);
+        if !same_structure(row["toks"].as_array().unwrap(), &toks) {
+            mm.push("structure", json!({"value": row["v"], "text": text, "expected_tokens": row["toks"],
+                "got_tokens": toks.iter().map(|(a, c)| json!([a, c])).collect::<Vec<_>>()}));
+        }
+        // route 1: Variable::from_str
+        let (obs, detail) = observe(catch(|| Variable::from_str(&text)), &v);
+        if Some(obs.as_str()) != row["from_str"].as_str() {
+            mm.push("from_str", json!({"value": row["v"], "text": text, "expected": row["from_str"], "got": obs, "detail": detail}));
+        }
+        // route 2: the text as a program
+        let (obs, detail) = observe(run_program(&interp, &text), &v);
+        if Some(obs.as_str()) != row["prog"].as_str() {
+            mm.push("program", json!({"value": row["v"], "text": text, "expected": row["prog"], "got": obs, "detail": detail}));
+        }
+        match row["prog"].as_str() {
+            Some("ok") => n_prog_ok += 1,
+            _ => n_prog_overflow += 1,
+        }
+        if samples.len() < 5 && ri % 701 == 300 {
+            samples.push(json!({"text": text, "tag": v.as_type().to_string(), "from_str": row["from_str"], "program": row["prog"]}));
+        }
+    }
+    json!({"values": n, "program_route_ok": n_prog_ok, "program_route_rejected_min_int": n_prog_overflow,
+           "max_leading_brackets": max_depth, "evaluations": 4 * n,
+           "mismatch_counts": mm.counts(), "mismatches": mm.items(), "samples": samples})
+}
+
+fn lits(dir: &str) -> Value {
+    let rows = read_ndjson(&format!("{dir}/print_lits.ndjson"));
+    let interp = Interpreter::without_stdlib();
+    let mut mm = Mismatches::new(300);
+    let (mut n, mut n_overflow) = (0u64, 0u64);
+    let mut samples = vec![];
+    let expect = |e: &Value| -> Option<i64> { if k(e) == "int" { Some(int_from_wire(e)) } else { None } };
+    let judge = |mm: &mut Mismatches, route: &str, text: &str, want: Option<i64>, res: Result<Result<Variable, Error>, String>,
+                 wrap: &dyn Fn(i64) -> Variable| {
+        let ok = match (&res, want) {
+            (Ok(Ok(got)), Some(x)) => { let w = wrap(x); strict_eq(got, &w) && got.as_type() == w.as_type() }
+            (Ok(Err(Error::IntegerOverflow(_))), None) => true,
+            _ => false,
+        };
+        if !ok {
+            let got = match &res {
+                Ok(Ok(v)) => json!({"value": format!("{v:?}"), "tag": v.as_type().to_string()}),
+                Ok(Err(e)) => json!({"error": e.to_string()}),
+                Err(p) => json!({"panic": p}),
+            };
+            mm.push(route, json!({"text": text,
+                "expected": want.map_or(json!("rejected: too big for int (IntegerOverflow)"), |x| json!(x.to_string())), "got": got}));
+        }
+    };
+    for (ri, row) in rows.iter().enumerate() {
+        let text = format!("{}{}", if row["neg"].as_i64() == Some(1) { "-" } else { "" }, row["text"].as_str().unwrap());
+        let (fs, pg) = (expect(&row["from_str"]), expect(&row["prog"]));
+        n += 1;
+        if fs.is_none() { n_overflow += 1; }
+        let plain = |x: i64| Variable::Int(x);
+        judge(&mut mm, "lit_from_str", &text, fs, catch(|| Variable::from_str(&text)), &plain);
+        judge(&mut mm, "lit_program", &text, pg, run_program(&interp, &text), &plain);
+        // the same literal inside containers
+        let in_arr = format!("[{text}, 0]");
+        let arr = |x: i64| Variable::from(Array::from(Arc::<[Variable]>::from(vec![Variable::Int(x), Variable::Int(0)])));
+        judge(&mut mm, "lit_from_str", &in_arr, fs, catch(|| Variable::from_str(&in_arr)), &arr);
+        judge(&mut mm, "lit_program", &in_arr, pg, run_program(&interp, &in_arr), &arr);
+        let in_tup = format!("((), {text})");
+        let tup = |x: i64| Variable::Tuple(Arc::<[Variable]>::from(vec![Variable::Void, Variable::Int(x)]));
+        judge(&mut mm, "lit_from_str", &in_tup, fs, catch(|| Variable::from_str(&in_tup)), &tup);
+        judge(&mut mm, "lit_program", &in_tup, pg, run_program(&interp, &in_tup), &tup);
+        if samples.len() < 4 && ri % 311 == 100 {
+            samples.push(json!({"literal": text, "from_str": fs.map_or(json!("overflow"), |x| json!(x.to_string())),
+                "program": pg.map_or(json!("overflow"), |x| json!(x.to_string()))}));
+        }
+    }
+    json!({"forms": n, "forms_rejected_by_from_str": n_overflow, "evaluations": 6 * n,
+           "mismatch_counts": mm.counts(), "mismatches": mm.items(), "samples": samples})
+}
+
+// ---- impl -> spec: seeded random values beyond the enumerated bound ----------------------
+
+fn gen_string(rng: &mut Rng) -> String {
+    let n = rng.below(7);
+    let mut s = String::new();
+    for _ in 0..n {
+        let c = match rng.below(12) {
+            0 => '"',
+            1 => '\\',
+            2 => '\0',
+            3 => char::from_digit(rng.below(10) as u32, 10).unwrap(),
+            4 => char::from_u32(rng.below(0x20) as u32).unwrap(),
+            5 => char::from_u32(0x7f + rng.below(0x22) as u32).unwrap(),
+            6 => char::from_u32(0x300 + rng.below(0x70) as u32).unwrap(),
+            7 => *rng.pick(&['n', 'u', 'x', '{', '}', '\'', 't', 'r', '0']),
+            8 => loop {
+                let c = rng.below(0x10000) as u32;
+                if let Some(ch) = char::from_u32(c) { break ch; }
+            },
+            9 => char::from_u32(0x10000 + rng.below(0x100000) as u32).unwrap_or('\u{10ffff}'),
+            _ => char::from_u32(0x20 + rng.below(0x5f) as u32).unwrap(),
+        };
+        s.push(c);
+    }
+    s
+}
+
+fn gen_val(rng: &mut Rng, depth: usize) -> Variable {
+    let leaf = depth == 0 || rng.chance(1, 3);
+    if leaf {
+        return match rng.below(9) {
+            0 => Variable::Bool(rng.chance(1, 2)),
+            1 => Variable::Void,
+            2 => Variable::Int(*rng.pick(&[i64::MIN, i64::MIN + 1, -1, 0, 1, i64::MAX, i64::MAX - 1, 1 << 53, -(1 << 31)])),
+            3 => Variable::Int(rng.next() as i64),
+            4 => Variable::Int((rng.next() as i64) >> (rng.below(64) as u32)),
+            5 | 6 => loop {
+                let bits = match rng.below(3) {
+                    0 => rng.next(),
+                    1 => rng.next() & 0x800f_ffff_ffff_ffff,                       // subnormals and zeros
+                    _ => (rng.next() & 0x8000_0000_0000_0000) | ((1023 - 60 + rng.below(130) as u64) << 52) | (rng.next() & 0xf_ffff_ffff_ffff & if rng.chance(1, 2) { !0 } else { 0xf_f000_0000_0000 }),
+                };
+                let f = f64::from_bits(bits);
+                if f.is_finite() { break Variable::Float(f); }
+            },
+            _ => Variable::String(gen_string(rng).into()),
+        };
+    }
+    if rng.chance(1, 2) {
+        let n = rng.below(4);
+        let es: Arc<[Variable]> = (0..n).map(|_| gen_val(rng, depth - 1)).collect();
+        Variable::from(Array::from(es))
+    } else {
+        let n = 2 + rng.below(3);
+        Variable::Tuple((0..n).map(|_| gen_val(rng, depth - 1)).collect())
+    }
+}
+
+/// The value for TLC: structure exact, ints as sign + decimal digits, float and string leaves as
+/// opaque atoms (their text is judged by the round trip, which the harness evaluates here).
+fn val_for_tlc(v: &Variable) -> Value {
+    match v {
+        Variable::Bool(b) => json!({"k": "bool", "b": b}),
+        Variable::Int(n) => json!({"k": "int", "neg": *n < 0,
+            "mag": n.unsigned_abs().to_string().bytes().map(|d| (d - b'0') as u64).collect::<Vec<_>>()}),
+        Variable::Float(f) => json!({"k": "float", "neg": f.is_sign_negative(), "fid": "r"}),
+        Variable::String(_) => json!({"k": "string", "sid": "r"}),
+        Variable::Void => json!({"k": "void"}),
+        Variable::Array(a) => json!({"k": "array", "es": a.iter().map(val_for_tlc).collect::<Vec<_>>()}),
+        Variable::Tuple(es) => json!({"k": "tuple", "es": es.iter().map(val_for_tlc).collect::<Vec<_>>()}),
+        _ => json!({"k": "?"}),
+    }
+}
+
+fn toks_for_tlc(toks: &[(String, String)]) -> Vec<Value> {
+    toks.iter().map(|(a, c)| match a.as_str() {
+        "p" => json!({"a": "p", "c": c}),
+        "int" => json!({"a": "int", "mag": c.bytes().map(|d| (d - b'0') as u64).collect::<Vec<_>>()}),
+        "float" => json!({"a": "float", "fid": "r"}),
+        "str" => json!({"a": "str", "sid": "r"}),
+        "bool" => json!({"a": "bool", "b": c == "true"}),
+        _ => json!({"a": "p", "c": format!("?{c}")}),
+    }).collect()
+}
+
+fn gen_vals(n: usize, max_depth: usize, out: &str) -> Value {
+    let mut rng = Rng::from_env(0xC20);
+    let interp = Interpreter::without_stdlib();
+    let mut f = std::io::BufWriter::new(std::fs::File::create(out).expect("cannot create output"));
+    let mut mm = Mismatches::new(100);
+    let mut distinct: HashSet<String> = HashSet::new();
+    let (mut records, mut leaves_float, mut leaves_str, mut leaves_int) = (0u64, 0u64, 0u64, 0u64);
+    fn count(v: &Variable, f: &mut u64, s: &mut u64, i: &mut u64) {
+        match v {
+            Variable::Float(_) => *f += 1,
+            Variable::String(_) => *s += 1,
+            Variable::Int(_) => *i += 1,
+            Variable::Array(a) => a.iter().for_each(|e| count(e, f, s, i)),
+            Variable::Tuple(es) => es.iter().for_each(|e| count(e, f, s, i)),
+            _ => {}
+        }
+    }
+    for i in 0..n {
+        let v = gen_val(&mut rng, i % (max_depth + 1));
+        let text = match catch(|| format!("{v:?}")) {
+            Ok(t) => t,
+            Err(p) => {
+                mm.push("print", json!({"panic": p}));
+                continue;
+            }
+        };
+        if !distinct.insert(text.clone()) {
+            continue;
+        }
+        count(&v, &mut leaves_float, &mut leaves_str, &mut leaves_int);
+        let (fs, fs_detail) = observe(catch(|| Variable::from_str(&text)), &v);
+        let (pg, pg_detail) = observe(run_program(&interp, &text), &v);
+        writeln!(f, "{}", json!({"v": val_for_tlc(&v), "toks": toks_for_tlc(&tokenize_val(&text)), "text": text,
+            "from_str": fs, "prog": pg, "from_str_detail": fs_detail, "prog_detail": pg_detail})).unwrap();
+        records += 1;
+    }
+    f.flush().unwrap();
+    json!({"generated": n, "records": records, "float_leaves": leaves_float, "string_leaves": leaves_str,
+           "int_leaves": leaves_int, "mismatch_counts": mm.counts(), "mismatches": mm.items()})
+}
